@@ -1,5 +1,12 @@
 open Datatypes
 
+(** val add : nat -> nat -> nat **)
+
+let rec add n m =
+  match n with
+  | O -> m
+  | S p -> S (add p m)
+
 (** val eqb : nat -> nat -> bool **)
 
 let rec eqb n m =
